@@ -25,13 +25,6 @@ def Op.key? : Op → Option PKey
   | .set k _ | .extend k _ | .clear k | .setAttr k _ _ | .setOdml k _ | .delitem k => some k
   | _ => none
 
-/-- the only operation that can raise TypeError *after* it created something: `create_property`
-with a numpy array (the dtype is inferred from the first element, the final `prop.values = vals`
-compares the array's own dtype) -/
-def Op.createsFromArray : Op → Bool
-  | .create _ (.ndarray _ _ _) => true
-  | _ => false
-
 /-! ## one data type, fixed at creation -/
 
 /-- In every reachable state every stored value is of its property's data type, and no operation
@@ -174,18 +167,13 @@ theorem C10_reads_change_nothing (st : State) (k : PKey) (k' : Key) :
 
 /-! ## refusals -/
 
-/-- **TypeError ⇒ nothing stored changed.**  Whatever operation raises TypeError (in fact: any
-exception other than ValueError / OverflowError), every property that existed is still there, in
-order, with identical values, and the child sections are the same; unless the operation was
-`create_property` from a numpy array, the state is *exactly* what it was. -/
+/-- **TypeError ⇒ nothing changed.**  Whatever operation raises TypeError — in fact any exception
+other than ValueError / OverflowError, the two that h5py / numpy raise after the dataset was
+already resized — leaves the section exactly as it was: every property with its values, dtype and
+attributes, every child section, and nothing new. -/
 theorem C10_refused_unchanged {st : State} (hr : Reachable st) {op : Op} (hwf : op.WF = true) {e : Err}
     (herr : (step st op).2 = .error e) (h1 : e ≠ .valueError) (h2 : e ≠ .overflowError) :
-    st.props <+: (step st op).1.props ∧ (step st op).1.secs = st.secs ∧
-    (Op.createsFromArray op = false → (step st op).1 = st) := by
-  have same : (step st op).1 = st →
-      st.props <+: (step st op).1.props ∧ (step st op).1.secs = st.secs ∧
-      (Op.createsFromArray op = false → (step st op).1 = st) := by
-    intro h; rw [h]; exact ⟨List.prefix_refl _, rfl, fun _ => rfl⟩
+    (step st op).1 = st := by
   have liftErr : ∀ r : State × Except Err Unit, (lift r).2 = .error e → r.2 = .error e := by
     intro r h
     simp only [lift] at h
@@ -193,47 +181,32 @@ theorem C10_refused_unchanged {st : State} (hr : Reachable st) {op : Op} (hwf : 
     | ok u => simp [hr2] at h
     | error e' => simp [hr2] at h; rw [h]
   cases op with
-  | create name inp =>
-    have herr' := liftErr _ herr
-    refine ⟨(createProperty_prefix st name inp).1, (createProperty_prefix st name inp).2, ?_⟩
-    intro hc
-    apply createProperty_refused herr' h1 h2
-    intro a s d hi
-    subst hi
-    simp [Op.createsFromArray] at hc
-  | set k inp =>
-    exact same (onProp_refused hr.inv herr fun p hp => setValues_refused' hp h1 h2)
-  | extend k inp =>
-    exact same (onProp_refused hr.inv herr fun p hp => extendValues_refused hwf hp h1)
-  | clear k =>
-    exact same (onProp_refused hr.inv herr fun p hp => by simp at hp)
-  | setAttr k a v =>
-    exact same (onProp_refused hr.inv herr fun p hp => setAttr_refused hp)
-  | setOdml k o =>
-    exact same (onProp_refused hr.inv herr fun p hp => setOdml_refused hp)
-  | get k => exact same rfl
-  | getitem k => exact same rfl
-  | contains k => exact same rfl
-  | len => exact same rfl
-  | items => exact same rfl
-  | reopen => exact same rfl
-  | mksec name type => exact same (createSection_error (liftErr _ herr))
-  | delitem k => exact same (delitem_error (liftErr _ herr))
+  | create name inp => exact createProperty_refused (liftErr _ herr) h1 h2
+  | set k inp => exact onProp_refused hr.inv herr fun p hp => setValues_refused' hp h1 h2
+  | extend k inp => exact onProp_refused hr.inv herr fun p hp => extendValues_refused hwf hp h1
+  | clear k => exact onProp_refused hr.inv herr fun p hp => by simp at hp
+  | setAttr k a v => exact onProp_refused hr.inv herr fun p hp => setAttr_refused hp
+  | setOdml k o => exact onProp_refused hr.inv herr fun p hp => setOdml_refused hp
+  | get k => rfl
+  | getitem k => rfl
+  | contains k => rfl
+  | len => rfl
+  | items => rfl
+  | reopen => rfl
+  | mksec name type => exact createSection_error (liftErr _ herr)
+  | delitem k => exact delitem_error (liftErr _ herr)
   | setitem key v =>
     cases v with
-    | S ty => exact same (createSection_error (liftErr _ herr))
+    | S ty => exact createSection_error (liftErr _ herr)
     | val inp =>
       have herr' := liftErr _ herr
-      apply same
       show (setitem st key (.val inp)).1 = st
       obtain ⟨ws, hws⟩ := asListData_list inp
       simp only [setitem, hws] at herr' ⊢
       split
       · rename_i hc
         simp only [hc] at herr'
-        apply createProperty_refused herr' h1 h2
-        intro a s d hi
-        cases hi
+        exact createProperty_refused herr' h1 h2
       · rename_i hc
         simp only [hc] at herr'
         cases hf : findProp st (.key (.name key)) with
@@ -498,7 +471,8 @@ example : getitem (run State.init demoOps) (.name ['k']) = .ok (.scalar (.s ['ä
 example : (step (run State.init demoOps) (.set (.idx 0) (.list [.pyInt 9223372036854775808]))).2 =
     .error .overflowError := by rfl
 example : (step State.init (.create ['p'] (.ndarray (.num .int32) [2] [.i 1, .i 2]))) =
-    ({ props := [{ name := ['p'], id := 0, dtype := .int64, vals := [.i 0, .i 0] }], secs := [], next := 1 },
-     .error .typeError) := by rfl
+    (State.init, .error .typeError) := by rfl
+example : ((step State.init (.create ['p'] (.ndarray (.num .int64) [2] [.i 1, .i 2]))).1.props.map (·.vals)) =
+    [[.i 1, .i 2]] := by rfl
 
 end Nix.C10
